@@ -35,8 +35,8 @@ var (
 	profPath    string
 	devMaxPaths int64
 	devDeadline time.Duration
-	verifDir = envOr("VERIF_DIR", "/verif")
-	repoDir  = envOr("VERIF_REPO", "/repo")
+	verifDir    = envOr("VERIF_DIR", "/verif")
+	repoDir     = envOr("VERIF_REPO", "/repo")
 )
 
 func envOr(k, d string) string {
